@@ -25,6 +25,10 @@ SEEDED = os.path.join(HERE, 'seeded')
 def run_one(sid, tier, also, seed):
     d = os.path.join(SEEDED, sid)
     meta = json.load(open(os.path.join(d, 'meta.json')))
+    if meta.get('neutralised_by'):
+        # a later repair of the library made this change harmless (its
+        # demonstration passes with it): nothing to detect any more
+        return sid, {'neutralised': meta['neutralised_by']}
     root = tempfile.mkdtemp(prefix='seedrun_%s_' % sid, dir='/tmp')
     out = {}
     try:
@@ -75,6 +79,10 @@ def main():
         futs = [ex.submit(run_one, i, tier, also, seed) for i in ids]
         for f in futs:
             sid, out = f.result()
+            if 'neutralised' in out:
+                print('%-8s NEUTRALISED by fix %s' % (sid,
+                                                      out['neutralised']))
+                continue
             for pid, r in out.items():
                 if pid == 'error':
                     print('%-8s ERROR %s' % (sid, r))
